@@ -152,7 +152,7 @@ Proof.
   assert (X := sr_ext _ _ _ _ _ _ _ R).
   assert (Hw : forall l i, In (l, i) w -> length h <= l \/ exists g n c, sl s g = SArr l n c /\ n <= i).
   { intros l i Hin. destruct (sr_w _ _ _ _ _ _ _ R _ _ Hin) as [Hf | (n & c & E & Hn)]; auto.
-    right. destruct Ho as [-> | ->]; [|discriminate]. exists f, n, c. auto. }
+    right. destruct Ho as [-> | ->]; [|discriminate]. exists f, n, c. split; [auto | lia]. }
   apply ospec_of_writes; auto.
   - intro g. cbn. destruct (field_eqb g f) eqn:Eg.
     + apply field_eqb_spec in Eg. subst. apply (sr_wf _ _ _ _ _ _ _ R).
